@@ -69,7 +69,10 @@ def _fail_info(r):
 
 
 def run(ctx):
-    vlib.build(["vgrid"])
+    # C14_NO_BUILD=1: mutation experiments on inline header code only, where the harness object was
+    # rebuilt by hand in the scratch build tree (a full dependent rebuild of libceleritas is not needed)
+    if not os.environ.get("C14_NO_BUILD"):
+        vlib.build(["vgrid"])
     q = ctx.quick
     seed = ctx.seed % 1000000007
 
